@@ -547,6 +547,9 @@ def run(script, ctx):
                 ctx.ops_skipped += 1
                 continue
             dens = (op["density"] + [0, 0, 0])[:lv.nd]
+            if max(lv.sizes) > 20:
+                ctx.ops_skipped += 1          # refinement doubles the net: keep runs bounded (a step cap does not bound a blow-up)
+                continue
             what = "refine_knotvector(%r)" % (dens,)
             try:
                 g.operations.refine_knotvector(lv.obj, dens)
